@@ -141,10 +141,25 @@ func c03LoadRef(r *h.R, rp ref.Point, mode int) (*curve.EdwardsPoint, ref.Point,
 	return p, rp, true
 }
 
+var c03AuxRef = h.C03SpecPoint(h.PointSpec{A: h.Hex{0x39, 0x30}, J: 3})
+
 func c03Expect(r *h.R, op string, got *curve.EdwardsPoint, want ref.Point) {
-	r.Eval(1)
+	r.Eval(2)
 	if g, w := c03Enc(got), want.Encode(); !bytes.Equal(g, w) {
 		r.Fail("EdwardsPoint."+op+":wrong-result", "got=%x want=%x", g, w)
+		return
+	}
+	// The encoding (like Equal) reads X, Y and Z only; the extended coordinate
+	// T = XY/Z is read by the NEXT addition.  A result is only "exactly the point"
+	// if it also works as an operand: got + aux must be want + aux.
+	aux, err := c03Load(c03AuxEnc)
+	if err != nil {
+		panic(err)
+	}
+	var sum curve.EdwardsPoint
+	sum.Add(got, aux)
+	if g, w := c03Enc(&sum), ref.Add(want, c03AuxRef).Encode(); !bytes.Equal(g, w) {
+		r.Fail("EdwardsPoint."+op+":result-unusable-as-operand", "the result encodes correctly (%x) but result + aux = %x, want %x: inconsistent T coordinate", c03Enc(got), g, w)
 	}
 }
 
